@@ -1179,7 +1179,8 @@ func c19Timers(c *Ctx) {
 			continue
 		}
 		done[fn] = true
-		ev := NewEvaluator(c.P, EvalConfig{MaxVisits: 3, MaxPaths: 50000})
+		// function literals the function calls or defers itself (defer func() { timer.Stop() }()) are part of it
+		ev := NewEvaluator(c.P, EvalConfig{MaxVisits: 3, MaxPaths: 50000, InlineClosures: true})
 		ps := ev.Run(fn)
 		name, pos := c.fn(fn), c.P.FuncPos(fn)
 		if ev.Err != nil || len(ps) == 0 {
